@@ -10,7 +10,7 @@ from .. import oracles as O
 from ..core import digest_of, jsonable, rng_from, stream_seeds
 from ..crashloop import explore
 from ..runner import run_process
-from ..swarm import draw_smc_scenario, pick
+from ..swarm import PRECONDS_WITH_FLOW, draw_smc_scenario, pick
 from . import runs
 from .common import shrink_scenario_candidates
 
@@ -56,7 +56,7 @@ def scenario_of(case):
         case["scenario_seed"],
         xps=("numpy", "numpy", "torch", "jax"), dtypes=(None, None, "float64", "float32"),
         particles=(12, 40) if quick else (12, 96), kernel_steps=(1, 2),
-        checkpoint_modes=("none",), n_final=("none",), rng_routes=("ctor",), offset_prob=0.2, reuse_prob=0.12,
+        checkpoint_modes=("none",), n_final=("none",), rng_routes=("ctor",), offset_prob=0.2, reuse_prob=0.12, preconds=PRECONDS_WITH_FLOW,
     )
     return scn
 
